@@ -156,6 +156,18 @@ def exec (cfg : Cfg) (s : St) (as : List Act) : St := as.foldl (step cfg) s
 /-- the state after a schedule, starting right after `boot()` -/
 def runAll (cfg : Cfg) (as : List Act) : St := exec cfg St.boot as
 
+/-! ### a consumer of the step number inside the library: `SIS::filtering_step()`
+
+    void SIS::filtering_step()
+    {
+        if (step_number() != 0)
+            prediction().predict(cor_particle_, pred_particle_);
+        ...
+
+The step that carries number `k` predicts unless `k = 0`: the first step of an epoch works on the
+particles `initialization_step()` has just drawn. -/
+def sisPredicts (stepNumber : Nat) : Bool := stepNumber != 0
+
 /-! ### observations -/
 def St.isRunning (s : St) : Bool := s.run
 def St.stepNumber (s : St) : Nat := s.step
